@@ -94,7 +94,12 @@ def random_script(rng, length, maxdim=3, maxfreq=3, convert=True):
         if k < 0.06:
             t, r, c = dims_for(rng, maxdim)
             f = rng.randint(0, maxfreq) if rng.random() > 0.03 else -1
-            ops.append("%d init %d %d %d %d" % (o, t, r, c, f))
+            if rng.random() < 0.2:
+                # vnadata_alloc_and_init: the slot holds a fresh object afterwards, initialised or not
+                ops.append("%d allocinit %d %d %d %d" % (o, t, r, c, f))
+                s.t, s.r, s.c, s.f = 0, 0, 0, 0
+            else:
+                ops.append("%d init %d %d %d %d" % (o, t, r, c, f))
             resized(s, t, r, c, f)
         elif k < 0.20:
             t, r, c = dims_for(rng, maxdim)
@@ -156,7 +161,8 @@ def random_script(rng, length, maxdim=3, maxfreq=3, convert=True):
             ops.append("%d setfz0v %d %s" % (o, idx(rng, s.f), vlist(rng, s.ports(), zval)))
         elif k < 0.93:
             ops.append(rng.choice(("%d setft %d" % (o, rng.randint(-1, 4)),
-                                   "%d setfmt %d" % (o, rng.randint(-1, 5)),
+                                   "%d setfmt %d" % (o, rng.choice((-1, -1, 0, 1, 2, 3, 4, 5))),
+                                   "%d setfmtbad %d" % (o, rng.randint(0, 5)),
                                    "%d setfprec %d" % (o, rng.randint(0, 9)),
                                    "%d setdprec %d" % (o, rng.randint(0, 9)))))
         elif convert:
@@ -216,6 +222,8 @@ def exhaustive_alphabet(maxdim=2):
     a.append("0 setz0v 2 5,0 10,0")
     a.append("0 setfz0v 1 2 2,0 99,0")
     a.append("0 setallz0 2,2")
+    a.append("0 setfmt 1")
+    a.append("0 setfmt -1")
     a.append("0 getz0 2")
     a.append("0 getfz0 0 2")
     a.append("conv 0 0 10")
